@@ -97,3 +97,69 @@ Theorem C02_new_total : forall w bsize seq f, width_ok w -> (bsize = 256 \/ bsiz
   exists t, hq_new bsize seq f = Val t /\ C02_contract w bsize t seq.
 Proof. exact hq_new_total. Qed.
 Print Assumptions C02_new_total.
+
+From QwtModel Require Import Loops FnsHqwt FnsRsqOk FnsHqwtOk.
+
+(* ---- T5: the WALKS of the Huffman-shaped quad wavelet tree REGENERATED from src/quadwt/huffqwt.rs on every run
+   (tools/gen_fns.py -> Gen/FnsHqwt.v: code_index, get with the decode-table search, rank with its `while shift >= 0`
+   loop over the code fragments, select with its two passes; B = 256 and 512; the RSQVector API below them is
+   regenerated too), applied to the fields of the tree the hand-modelled builder constructs. The contract is the one
+   of C02 restated for the regenerated functions: for every sequence and every compatible code table (and for the
+   table craft_wm_codes builds from any admissible lengths), they return exactly the list specification, for every
+   fuel >= 17 and above the number of superblocks of a level. *)
+Definition C02_source_contract (w : N) (t : hqwt) (seq : list N)
+  (g_code_index : N -> list N -> list N -> N -> outcome (option N))
+  (g_len : N -> outcome N)
+  (g_get : N -> N -> N -> list (list (N * N)) -> list (list (list N)) -> list N -> list (list (list N)) -> list (list N) -> list N -> N -> outcome (option N))
+  (g_get_unchecked : N -> N -> list (list (N * N)) -> list (list (list N)) -> list N -> list (list (list N)) -> list (list N) -> list N -> N -> outcome N)
+  (g_rank : N -> N -> list N -> list N -> list (list (list N)) -> list (list (list N)) -> list (list N) -> N -> N -> outcome (option N))
+  (g_rank_unchecked : N -> list N -> list N -> list (list (list N)) -> list (list (list N)) -> list (list N) -> N -> N -> outcome N)
+  (g_select : N -> N -> list N -> list N -> list (list (list N)) -> list N -> list (list (list N)) -> list (list (list N)) -> list (list N) -> N -> N -> outcome (option N))
+  (g_select_unchecked : N -> N -> list N -> list N -> list (list (list N)) -> list N -> list (list (list N)) -> list (list (list N)) -> list (list N) -> N -> N -> outcome N)
+  : Prop :=
+  let ec := hq_enc_content t in let el := hq_enc_len t in
+  let d := hq_data t in let p := hq_pos t in let sb := hq_sbs t in let sm := hq_samples t in let oc := hq_occs t in
+  g_len (h_n t) = Val (len seq) /\
+  (forall c, c < 2 ^ w -> g_code_index w ec el c = Val (if 0 <? countN c seq then Some (sym_index c) else None)) /\
+  (forall i, i < 2 ^ 64 -> g_get w (h_n t) (h_n_levels t) (h_decode t) d p sb oc (h_lens t) i = Val (nthN seq i)) /\
+  (forall i x, nthN seq i = Some x -> g_get_unchecked w (h_n_levels t) (h_decode t) d p sb oc (h_lens t) i = Val x) /\
+  (forall c i, c < 2 ^ w -> i < 2 ^ 64 -> g_rank w (h_n t) ec el d sb oc c i =
+       Val (if (i <=? len seq) && (0 <? countN c seq) then Some (rank_spec seq c i) else None)) /\
+  (forall c i, 0 < countN c seq -> i <= len seq -> g_rank_unchecked w ec el d sb oc c i = Val (rank_spec seq c i)) /\
+  (forall c k, c < 2 ^ w -> k < 2 ^ 64 ->
+       g_select w (h_n_levels t) ec el d p sb sm oc c k = Val (select_spec seq c k)) /\
+  (forall c k q, c < 2 ^ w -> select_spec seq c k = Some q ->
+       g_select_unchecked w (h_n_levels t) ec el d p sb sm oc c k = Val q).
+
+Theorem C02_source_tree_256 : forall w seq tab t fuel, width_ok w ->
+  Forall (fun x => x < 2 ^ w) seq -> len seq < RSQ_MAXN -> table_ok seq tab ->
+  hq_build 256 seq tab = Val t ->
+  (17 <= fuel)%nat -> (S (S (N.to_nat (len seq / (8 * 256)))) <= fuel)%nat ->
+  C02_source_contract w t seq g_hqwt256_code_index g_hqwt256_len g_hqwt256_get g_hqwt256_get_unchecked
+    (g_hqwt256_rank fuel) (g_hqwt256_rank_unchecked fuel) (g_hqwt256_select fuel) (g_hqwt256_select_unchecked fuel).
+Proof. exact g_hqwt256_end_to_end. Qed.
+Print Assumptions C02_source_tree_256.
+Theorem C02_source_tree_512 : forall w seq tab t fuel, width_ok w ->
+  Forall (fun x => x < 2 ^ w) seq -> len seq < RSQ_MAXN -> table_ok seq tab ->
+  hq_build 512 seq tab = Val t ->
+  (17 <= fuel)%nat -> (S (S (N.to_nat (len seq / (8 * 512)))) <= fuel)%nat ->
+  C02_source_contract w t seq g_hqwt512_code_index g_hqwt512_len g_hqwt512_get g_hqwt512_get_unchecked
+    (g_hqwt512_rank fuel) (g_hqwt512_rank_unchecked fuel) (g_hqwt512_select fuel) (g_hqwt512_select_unchecked fuel).
+Proof. exact g_hqwt512_end_to_end. Qed.
+Print Assumptions C02_source_tree_512.
+Theorem C02_source_new_256 : forall w seq f tab t fuel, width_ok w ->
+  Forall (fun x => x < 2 ^ w) seq -> len seq < RSQ_MAXN -> seq <> [] -> maxN seq < 2 ^ 64 - 1 ->
+  lengths_for seq f -> craft4 f (sym_index (maxN seq)) = Val tab -> hq_new 256 seq f = Val t ->
+  (17 <= fuel)%nat -> (S (S (N.to_nat (len seq / (8 * 256)))) <= fuel)%nat ->
+  C02_source_contract w t seq g_hqwt256_code_index g_hqwt256_len g_hqwt256_get g_hqwt256_get_unchecked
+    (g_hqwt256_rank fuel) (g_hqwt256_rank_unchecked fuel) (g_hqwt256_select fuel) (g_hqwt256_select_unchecked fuel).
+Proof. exact g_hqwt256_new_end_to_end. Qed.
+Print Assumptions C02_source_new_256.
+Theorem C02_source_new_512 : forall w seq f tab t fuel, width_ok w ->
+  Forall (fun x => x < 2 ^ w) seq -> len seq < RSQ_MAXN -> seq <> [] -> maxN seq < 2 ^ 64 - 1 ->
+  lengths_for seq f -> craft4 f (sym_index (maxN seq)) = Val tab -> hq_new 512 seq f = Val t ->
+  (17 <= fuel)%nat -> (S (S (N.to_nat (len seq / (8 * 512)))) <= fuel)%nat ->
+  C02_source_contract w t seq g_hqwt512_code_index g_hqwt512_len g_hqwt512_get g_hqwt512_get_unchecked
+    (g_hqwt512_rank fuel) (g_hqwt512_rank_unchecked fuel) (g_hqwt512_select fuel) (g_hqwt512_select_unchecked fuel).
+Proof. exact g_hqwt512_new_end_to_end. Qed.
+Print Assumptions C02_source_new_512.
